@@ -61,6 +61,10 @@ func ruleC18(c *Ctx) {
 		R.Note("effects: %s", u)
 	}
 
+	// positive control for the zero-expected-count rules of this property
+	R.Rule("C18.0", "positive control: a tiny package containing one instance of everything C18.1-C18.5 look for (stores to package-level arrays and through package-level slices, directly and via a helper; a package-level slice stored into an object and returned; a store through a parameter; a goroutine and a channel send) is analysed with the same detectors on every run, which must report each instance and stay silent on its clean functions", 1)
+	c.checkEffectsControl()
+
 	// ---- C18.1 no writes to package-level state ----
 	R.Rule("C18.1", "no function other than the package initialisers stores to a package-level variable, or through a pointer, slice or map derived from one (provenance followed through copies, addressing, reslices, phis, loads, conversions, calls and returns, to fixpoint)", 150)
 	globals := map[string]bool{}
